@@ -29,7 +29,7 @@ class A(Adapter):
 
     def configs(self):
         return [cfg("n20p8", True, n=20, p=0.8), cfg("n6p5", True, n=6, p=0.5), cfg("n12p3", n=12, p=0.3), cfg("n3p9", n=3, p=0.9),
-                cfg("n40p2", True, n=40, p=0.2)]  # more colours than a machine word has bits
+                cfg("n40p2", True, n=40, p=0.2), cfg("n8p1", True, n=8, p=0.1)]  # ... and a tiny sparse graph (isolated nodes)  # more colours than a machine word has bits
 
     def build(self, c):
         from jumanji.environments import GraphColoring
